@@ -124,6 +124,8 @@ class ActionsFamily:
             return self.gen_duel(rng, idx, opts)
         if sub == 'b2b':
             return self.gen_b2b(rng, idx, opts)
+        if sub == 'midflight':
+            return self.gen_midflight(rng, idx, opts)
         kind, wf = models(rng)
         ops = [{'op': 'start', 'mid': 'm1', 'vars': {'pid': 'p1'}}, {'op': 'quiesce'}, {'op': 'snapshot', 'level': 'rows'}]
         n = rng.randint(4, 10)
@@ -175,21 +177,75 @@ class ActionsFamily:
         if rng.random() < opts.get('tail', 0.35):
             return self.gen_b2b_tail(rng, idx, opts)
         kind, wf = models(rng)
+        midflight = rng.random() < opts.get('midflight', 0.3)
+        keep = rng.random() < opts.get('keep', 0.8)        # default configuration: rows of an ended process are removed while queued work may still run
         ops = [{'op': 'start', 'mid': 'm1', 'vars': {'pid': 'p1'}}, {'op': 'quiesce'}]
         for _ in range(rng.randint(1, 3)):
             for j in range(rng.randint(2, 3)):
                 action = rng.choice(['next', 'next', 'abort', 'skip', 'error', 'submit', 'remove', 'back', 'push'])
                 tgt = {'pid': 'p1', 'kind': 'act', 'state': 'interrupted', 'occ': rng.choice([0, 0, 1, -1])} if action != 'push' else {'pid': 'p1', 'kind': 'step', 'state': 'running', 'occ': rng.choice([0, -1])}
                 ops.append({'op': 'act', 'target': tgt, 'action': action, 'options': options_for(rng, action, wf, 0.9)})
+                if midflight and rng.random() < 0.5:
+                    # the process leaves the cache while what the action scheduled is still queued; the client's next
+                    # look at it (or its next action) loads it again before, or after, that work has run
+                    ops.append({'op': 'lru_drop', 'pid': 'p1'})
+                    if rng.random() < 0.5:
+                        ops.append({'op': 'yield', 'n': rng.randint(1, 4)})
+                    if rng.random() < 0.6:
+                        ops.append({'op': 'touch', 'pid': 'p1'})
                 if rng.random() < 0.4:
                     # the scheduler takes a few turns (not all it needs) before the next action arrives
                     ops.append({'op': 'yield', 'n': rng.randint(1, 6)})
             ops += [{'op': 'quiesce'}, {'op': 'snapshot', 'level': 'rows'}]
         ops += [{'op': 'run'}, {'op': 'snapshot', 'level': 'rows'}, {'op': 'probe_acts', 'pid': 'p1', 'evict': True}, {'op': 'quiesce'}]
         rt = rng.choice([{'flavor': 'current'}, {'flavor': 'current'}, {'flavor': 'current', 'chaos': {'max_yields': 3, 'seed': rng.randrange(1, 1 << 40)}}, {'flavor': 'multi', 'workers': 2, 'chaos': {'max_yields': 2, 'seed': rng.randrange(1, 1 << 40)}}])
-        sc = {'id': '', 'family': 'actions', 'sched': 'b2b-' + rt['flavor'], 'seed': rng.randrange(1 << 30), 'runtime': rt, 'engine': {'store': 'mem', 'keep_processes': True},
+        sc = {'id': '', 'family': 'actions', 'sched': 'b2b-' + rt['flavor'] + ('-midflight' if midflight else '') + ('' if keep else '-nokeep'), 'seed': rng.randrange(1 << 30), 'runtime': rt, 'engine': {'store': 'mem', 'keep_processes': keep},
               'models': [json.dumps(wf)], 'responder': {'mode': 'quiescent', 'rules': [{'match': {'uses': IRQ}, 'action': 'next', 'times': 100}]}, 'ops': ops}
         return {'scenarios': [sc], 'meta': {'wf': wf, 'kind': kind, 'sub': 'b2b'}, 'digest': digest([wf, ops]), 'nontrivial': True}
+
+    def gen_midflight(self, rng, idx, opts):
+        """the process leaves the cache right after a client action, while what that action scheduled is still queued, and
+        is looked up again by the client before (or after) the queued work has run; then everything is answered.
+        mode lru: only the LRU entry goes (what a full cache does at any moment): the engine must go on with the ONE
+        instance of the process, whatever the model.  mode forget: no instance is remembered either, a second one is
+        loaded from the store; the engine copies every task event into the cached process, which keeps simple flows
+        (no parallel branches) correct, and that is what this mode watches"""
+        mode = opts.get('mode') or rng.choice(['lru', 'forget'])
+        shape = rng.choice(['linear', 'linear', 'branches', 'catch'] if mode == 'lru' else ['linear', 'linear', 'catch'])
+        if shape == 'linear':
+            n = rng.randint(1, 2)
+            wf = {'id': 'm1', 'steps': [{'id': 's1', 'acts': [irq(f'a{i}', f'k{i}') for i in range(1, n + 1)]}, {'id': 's2', 'acts': [irq('a4', 'k4')]}, {'id': 's3', 'acts': [irq('a6', 'k6')]},
+                                        {'id': 's4', 'acts': [{'id': 'a5', 'uses': MSG, 'key': 'm5'}]}]}
+        elif shape == 'branches':
+            wf = {'id': 'm1', 'steps': [{'id': 's1', 'branches': [{'id': 'b1', 'if': 'true', 'steps': [{'id': 's11', 'acts': [irq('a1', 'k1')]}, {'id': 's12', 'acts': [irq('a2', 'k2')]}]},
+                                                                {'id': 'b2', 'if': 'true', 'steps': [{'id': 's21', 'acts': [irq('a3', 'k3')]}]}]}, {'id': 's2', 'acts': [irq('a4', 'k4')]}]}
+        else:
+            wf = {'id': 'm1', 'steps': [{'id': 's1', 'acts': [irq('a1', 'k1', catches=[{'on': 'e1', 'steps': [{'id': 'c1', 'acts': [irq('a9', 'k9')]}]}]), irq('a2', 'k2')]}, {'id': 's2', 'acts': [irq('a4', 'k4')]}]}
+        first = rng.choice(['next', 'next', 'next', 'skip', 'submit']) if shape != 'catch' else rng.choice(['error', 'error', 'next'])
+        ops = [{'op': 'start', 'mid': 'm1', 'vars': {'pid': 'p1'}}, {'op': 'quiesce'},
+               {'op': 'act', 'target': {'pid': 'p1', 'key': 'k1', 'state': 'interrupted'}, 'action': first, 'options': {'ecode': 'e1', 'message': 'x'} if first == 'error' else {}}]
+        if rng.random() < 0.4:
+            ops.append({'op': 'yield', 'n': rng.randint(1, 3)})
+        ops.append({'op': 'lru_drop' if mode == 'lru' else 'evict', 'pid': 'p1'})
+        if rng.random() < 0.5:
+            ops.append({'op': 'yield', 'n': rng.randint(1, 3)})
+        if rng.random() < 0.7:
+            ops.append({'op': 'touch', 'pid': 'p1'})
+        closing = rng.choice([None, 'abort', 'late-abort', 'again-late'])
+        ops += [{'op': 'quiesce'}, {'op': 'snapshot', 'level': 'rows'}]
+        one_more = [{'op': 'act', 'target': {'pid': 'p1', 'kind': 'act', 'state': 'interrupted', 'occ': 0}, 'action': 'next', 'options': {}}, {'op': 'quiesce'}, {'op': 'snapshot', 'level': 'rows'}]
+        if closing == 'abort':
+            ops += [{'op': 'act', 'target': {'pid': 'p1', 'kind': 'act', 'state': 'interrupted', 'occ': -1}, 'action': 'abort', 'options': {}}, {'op': 'quiesce'}, {'op': 'snapshot', 'level': 'rows'}]
+        elif closing == 'late-abort':
+            ops += one_more + [{'op': 'act', 'target': {'pid': 'p1', 'kind': 'act', 'state': 'interrupted', 'occ': -1}, 'action': 'abort', 'options': {}}, {'op': 'quiesce'}, {'op': 'snapshot', 'level': 'rows'}]
+        elif closing == 'again-late':
+            # the act answered first has ended by now (also when its catch steps had to finish first): refused
+            ops += one_more + [{'op': 'act', 'target': {'pid': 'p1', 'key': 'k1'}, 'action': 'next', 'options': {}}, {'op': 'quiesce'}, {'op': 'snapshot', 'level': 'rows'}]
+        ops += [{'op': 'run'}, {'op': 'snapshot', 'level': 'rows'}, {'op': 'probe_acts', 'pid': 'p1', 'evict': True}, {'op': 'quiesce'}]
+        rt = rng.choice([{'flavor': 'current'}, {'flavor': 'current'}, {'flavor': 'current', 'chaos': {'max_yields': 2, 'seed': rng.randrange(1, 1 << 40)}}])
+        sc = {'id': '', 'family': 'actions', 'sched': f'midflight-{mode}-' + rt['flavor'], 'seed': rng.randrange(1 << 30), 'runtime': rt, 'engine': {'store': 'mem', 'keep_processes': True},
+              'models': [json.dumps(wf)], 'responder': {'mode': 'quiescent', 'rules': [{'match': {'key': 'k1'}, 'action': 'none', 'times': 100}, {'match': {'uses': IRQ}, 'action': 'next', 'times': 100}]}, 'ops': ops}
+        return {'scenarios': [sc], 'meta': {'wf': wf, 'kind': shape, 'sub': 'midflight', 'first': first, 'closing': closing, 'mode': mode}, 'digest': digest([wf, ops]), 'nontrivial': True}
 
     def gen_b2b_tail(self, rng, idx, opts):
         """the action that completes a step (its successor step goes into the queue) is followed at once by an action
